@@ -48,8 +48,15 @@ Ctx(f) == CASE f.fam = "none"   -> ""
             [] f.fam = "msg"    -> f.sub
             [] f.fam = "bind"   -> ""
 
+(* frame.py _pkt_idx: for a code that has no context the first payload byte must still be 00 - otherwise the
+   frame has no index, hence no context and no header at all (PacketPayloadInvalid "expecting no idx (00)");
+   the codes of CODE_IDX_ARE_NONE whose regex does not pin the byte are exempt: there it is data *)
+Idx0Free == {"0002", "10E0", "1100", "22F1", "2E04", "7FFF"}     \* 1100: only Fx is taken for a (domain) index
+BadIdx(f) == f.fam = "none" /\ f.idx \notin {"", "00"} /\ f.code \notin Idx0Free /\ f.verb \in {RQ, RP}   \* (I / W: per-verb regexes, not modelled)
+
 (* frame.py: pkt_header(pkt)  -- the header of the packet itself *)
 Hdr(f) ==
+  IF BadIdx(f) THEN NoHdr ELSE
   IF f.code = "1FC9"
   THEN <<f.code, f.verb, IF f.src = f.dst THEN ALL ELSE f.dst, "">>
   ELSE IF f.verb \in {I_, RP} \/ f.src = f.dst
